@@ -298,6 +298,8 @@ def run(ctx):
             ctx.nontrivial(("r", adds))
             ctx.sample("random", {"adds": adds[:10]})
     finally:
+        if pr.events.get("TrieDict.set_and_prune_if_shorter", 0) == 0:
+            ctx.count("invariant-walks:not-applicable")  # the implementation no longer goes through the hooked method
         pr.stop()
     return {"probes": pr.report()}
 
